@@ -804,6 +804,51 @@ impl<'a> Run<'a> {
 		let outcome = ans.split(' ').take(if ans.starts_with("err") { 2 } else { 1 }).collect::<Vec<_>>().join(":");
 		self.rec.case(&format!("tlvp {}", hex(bytes)), &ans, &format!("tlvp-{}:{}", kind, outcome), true);
 	}
+	/// op `tlvp` on EVERY prefix of a valid probe stream (both required types present, ascending, right widths, unknown odd types only):
+	/// the `ReadTrackingReader` decision of `_decode_tlv_stream_range!`. Oracle: a cut at a record boundary is never ShortRead (ok iff both
+	/// required records are before the cut, else InvalidValue); a cut anywhere inside a record (type, length or value) is ShortRead.
+	fn case_tlvp_cuts(&mut self, recs: &[(u64, Vec<u8>)]) {
+		let full = join_tlvs(recs);
+		let mut ends = vec![0usize];
+		for r in recs { let e = ends.last().unwrap() + join_tlvs(std::slice::from_ref(r)).len(); ends.push(e); }
+		for k in 0..=full.len() {
+			let bytes = &full[..k];
+			let r = guarded(AssertUnwindSafe(|| { let mut rd = bytes; tlv_probe(&mut rd) }));
+			let boundary = ends.iter().position(|e| *e == k);
+			let got = match &r { Err(_) => "panic".to_string(), Ok(Err(e)) => err_name(e), Ok(Ok(_)) => "ok".to_string() };
+			let want = match boundary {
+				Some(j) => if [2u64, 6].iter().all(|q| recs[..j].iter().any(|(t, _)| t == q)) { "ok" } else { "InvalidValue" },
+				None => "ShortRead",
+			};
+			if got != want {
+				self.rec.oracle_fail(format!("end-of-stream rule violated by decode_tlv_stream! on the {}-byte prefix {} of the valid stream {} (record ends {:?}): {} but a cut {} must give {}",
+					k, hex(bytes), hex(&full), ends, got, if boundary.is_some() { "at a record boundary" } else { "inside a record" }, want));
+			}
+			let ans = match &r {
+				Err(p) => format!("panic {}", p.replace('\n', " ")),
+				Ok(Err(e)) => format!("err {}", err_name(e)),
+				Ok(Ok((a, b, c, d))) => format!("ok {} {} {} {}", a, b.map(|x| x.to_string()).unwrap_or("-".into()), c, d.map(|x| x.to_string()).unwrap_or("-".into())),
+			};
+			self.rec.case(&format!("tlvp {}", hex(bytes)), &ans, &format!("tlvp-eof-{}:{}", if boundary.is_some() { "boundary" } else { "inside" }, got), true);
+		}
+	}
+	/// op `wlvec 32`: the real `WithoutLength<Vec<ChainHash>>` reader (read-to-end vector, `ReadTrackingReader` break guard) on a bare
+	/// record body. Oracle: accepted iff the body is a whole number of 32-byte elements, and then the elements are its bytes; else ShortRead.
+	fn case_wlvec(&mut self, bytes: &[u8], kind: &str) {
+		use lightning::util::ser::WithoutLength;
+		let r = guarded(AssertUnwindSafe(|| { let mut rd = bytes; <WithoutLength<Vec<bitcoin::constants::ChainHash>> as LengthReadable>::read_from_fixed_length_buffer(&mut rd) }));
+		let ans = match &r {
+			Err(p) => { self.rec.oracle_fail(format!("panic in WithoutLength<Vec<ChainHash>>::read on {}: {}", hex(bytes), p)); format!("panic {}", p.replace('\n', " ")) },
+			Ok(Err(e)) => format!("err {}", err_name(e)),
+			Ok(Ok(v)) => { let cat: Vec<u8> = v.0.iter().flat_map(|h| h.as_bytes().to_vec()).collect(); format!("ok {} {}", v.0.len(), hex(&cat)) },
+		};
+		let want = if bytes.len() % 32 == 0 { format!("ok {} {}", bytes.len() / 32, hex(bytes)) } else { "err ShortRead".to_string() };
+		if !ans.starts_with("panic") && ans != want {
+			self.rec.oracle_fail(format!("read-to-end vector rule violated by WithoutLength<Vec<ChainHash>>::read_from_fixed_length_buffer on {} ({} bytes): {} but expected {}", hex(bytes), bytes.len(), ans, want));
+		}
+		let outcome = ans.split(' ').take(if ans.starts_with("err") { 2 } else { 1 }).collect::<Vec<_>>().join(":");
+		self.rec.case(&format!("wlvec 32 {}", hex(bytes)), &ans, &format!("wlvec-{}:{}", kind, outcome), true);
+	}
 	fn case_wire(&mut self, bytes: &[u8], kind: &str, covered_ids: &[u16]) {
 		// only ids whose payload decoder the model covers, or ids the real reader does not know
 		let r = guarded(AssertUnwindSafe(|| vh::wire::read(bytes)));
@@ -1178,6 +1223,23 @@ fn main() {
 					run.case_tlvp(&join_tlvs(&recs), Some(&recs), "subset");
 				}
 			}
+			// every prefix of valid streams (ReadTrackingReader: clean end only between records); odd unknown types with 1-, 3- and 5-byte
+			// BigSize type fields and a 3-byte length field, so that cuts fall inside type and length fields too
+			for _ in 0..3 {
+				let mut recs: Vec<(u64, Vec<u8>)> = vec![];
+				if rng.chance(1, 2) { recs.push(mk(1, &mut rng)); }
+				recs.push(mk(2, &mut rng));
+				if rng.chance(1, 2) { recs.push(mk(3, &mut rng)); }
+				if rng.chance(1, 2) { recs.push(mk(5, &mut rng)); }
+				recs.push(mk(6, &mut rng));
+				if rng.chance(1, 2) { recs.push(mk(9, &mut rng)); }
+				if rng.chance(2, 3) { let n = rng.below(4) as usize; let t = 253 + 2 * rng.below(1000); recs.push((t, rng.bytes(n))); }
+				if rng.chance(1, 2) { let n = if rng.chance(1, 4) { 253 + rng.below(8) as usize } else { rng.below(3) as usize }; let t = 0x1_0001 + 2 * rng.below(1000); recs.push((t, rng.bytes(n))); }
+				run.case_tlvp_cuts(&recs);
+			}
+			// WithoutLength<Vec<ChainHash>>: whole elements, every cut of a short vector, lengths around the element size
+			for k in 0..=65usize { let b = rng.bytes(k); run.case_wlvec(&b, if k % 32 == 0 { "whole" } else { "partial" }); }
+			for _ in 0..6 { let k0 = 32 * rng.below(6) as usize; let k = k0 + *rng.pick(&[0usize, 0, 1, 31]); let b = rng.bytes(k); run.case_wlvec(&b, if k % 32 == 0 { "whole" } else { "partial" }); }
 			for _ in 0..40 {
 				let (a, c) = (run.g.u64b(&mut rng), run.g.u16b(&mut rng));
 				let b = if rng.chance(1, 2) { Some(run.g.u32b(&mut rng)) } else { None };
